@@ -615,6 +615,63 @@ func (fr *Frame) loopStoresSame(l *loop, a *ssa.Alloc) bool { return false }
 // precreateGhosts makes sure the ghost log cells written by calls inside the
 // loop exist before the loop is cut; it reports whether there are any.
 func (fr *Frame) precreateGhosts(l *loop, st *State) bool {
+	var blocks []*ssa.BasicBlock
+	for b := range l.body {
+		blocks = append(blocks, b)
+	}
+	return fr.precreateGhostsIn(blocks, fr.fn, st)
+}
+
+// havocGhostsForCall: a callee summarised by its contract may append to the
+// ghost logs; what it appends is unknown beyond what the contract says, and
+// earlier entries stay.
+func (fr *Frame) havocGhostsForCall(callee *ssa.Function, st *State) {
+	fx := fr.fx
+	if callee == nil || len(callee.Blocks) == 0 {
+		return
+	}
+	fx.touchedGhost = map[string]bool{}
+	any := fr.precreateGhostsIn(callee.Blocks, callee, st)
+	touched := fx.touchedGhost
+	fx.touchedGhost = nil
+	if !any {
+		return
+	}
+	oldN := T("0")
+	if c := fx.ghost["evn"]; c != nil {
+		if v, ok := st.cells[c]; ok {
+			oldN = v.t()
+		}
+	}
+	var names []string
+	for n := range touched {
+		names = append(names, n)
+	}
+	sort.Strings(names)
+	for _, n := range names {
+		c := fx.ghost[n]
+		if c == nil {
+			continue
+		}
+		old, live := st.cells[c]
+		nv := freshVal(fx.decls, c.sh, "ghostc")
+		switch {
+		case c.sh.kind == KInt:
+			if live {
+				fx.assume(st.guard, le(old.t(), nv.t()))
+			} else {
+				fx.assume(st.guard, le("0", nv.t()))
+			}
+		case c.sh.kind == KArr && live && (n == "evkind" || strings.HasPrefix(n, "evarg:") || strings.HasPrefix(n, "evres:")):
+			for j := range nv.ts {
+				fx.assume(st.guard, fmt.Sprintf("(forall ((k Int)) (! (=> (and (<= 0 k) (< k %s)) (= (select %s k) (select %s k))) :pattern ((select %s k))))", oldN, nv.ts[j], old.ts[j], nv.ts[j]))
+			}
+		}
+		st.cells[c] = nv
+	}
+}
+
+func (fr *Frame) precreateGhostsIn(blocks []*ssa.BasicBlock, infn *ssa.Function, st *State) bool {
 	any := false
 	seen := map[*ssa.Function]bool{}
 	var scan func(instrs []ssa.Instruction, fn *ssa.Function, depth int)
@@ -639,7 +696,9 @@ func (fr *Frame) precreateGhosts(l *loop, st *State) bool {
 			// the enclosing function (it may be the target of a dynamic call)
 			var targets []*ssa.Function
 			if callee := cc.StaticCallee(); callee != nil && len(callee.Blocks) > 0 {
-				if sp := fr.fx.eng.specFor(callee); sp == nil || sp.Inline {
+				// bodies that are inlined, and bodies summarised by a contract
+				// (the contract may speak about the log entries they append)
+				if sp := fr.fx.eng.specFor(callee); sp == nil || sp.Inline || (!sp.Extern && !sp.Pure) {
 					targets = append(targets, callee)
 				}
 			} else if !cc.IsInvoke() {
@@ -662,8 +721,8 @@ func (fr *Frame) precreateGhosts(l *loop, st *State) bool {
 			}
 		}
 	}
-	for b := range l.body {
-		scan(b.Instrs, fr.fn, 0)
+	for _, b := range blocks {
+		scan(b.Instrs, infn, 0)
 	}
 	return any
 }
@@ -833,6 +892,10 @@ func (fr *Frame) doPanic(x *ssa.Panic, st *State) {
 			cs = append(cs, fr.evalClause(c, fr.entry, nil, nil))
 		}
 		fx.oblige("panic", fr.path+"/panic/only_when_documented#", st, or(cs...), x.Pos(), "panics when")
+		return
+	}
+	if spec != nil && fr.isRoot && strings.HasPrefix(spec.Panics, "may") {
+		fx.noteAssumption("explicit panic in " + fr.path + " accepted as documented behaviour: " + spec.Panics)
 		return
 	}
 	fx.oblige("panic", name, st, "false", x.Pos(), "explicit panic")
@@ -1027,13 +1090,47 @@ func (fr *Frame) exec(in ssa.Instruction, st *State) {
 		fr.execRunDefers(x, st)
 	case *ssa.Go:
 		fr.execGo(x, st)
-	case *ssa.Send, *ssa.Select, *ssa.MakeChan:
+	case *ssa.Select:
+		fr.execSelect(x, st)
+	case *ssa.MakeChan:
+		// a channel is an opaque fresh reference
+		r := fr.fx.newRef(st, "chan")
+		fr.regs[x] = Val{sh: shapeOf(x.Type()), ts: []T{r}}
+	case *ssa.Send:
 		unsupp("channel operation %T in %s", in, fr.fn)
 	case *ssa.SliceToArrayPointer:
 		unsupp("slice to array pointer conversion")
 	default:
 		unsupp("instruction %T (%s) in %s", in, in, fr.fn)
 	}
+}
+
+// execSelect: any ready case may be chosen and what is received is
+// arbitrary; sends are not modelled.
+func (fr *Frame) execSelect(x *ssa.Select, st *State) {
+	fx := fr.fx
+	fx.noteAssumption("select picks any case; channel receives yield arbitrary values; other goroutines do not change the verified state while this one waits")
+	intSh := shapeOf(types.Typ[types.Int])
+	idx := fx.decls.Fresh("selidx", sInt)
+	lo := "0"
+	if !x.Blocking {
+		lo = "(- 1)"
+	}
+	fx.assume(st.guard, and(le(lo, idx), lt(idx, num(int64(len(x.States))))))
+	out := Val{sh: shapeOf(x.Type())}
+	out.ts = append(out.ts, mkInt(intSh, idx).ts...)
+	out.ts = append(out.ts, fx.decls.Fresh("selok", sBool))
+	for _, s := range x.States {
+		if s.Dir != types.RecvOnly {
+			unsupp("select with a send case in %s", fr.fn)
+		}
+		ct := s.Chan.Type().Underlying().(*types.Chan)
+		ev := freshVal(fx.decls, shapeOf(ct.Elem()), "selrecv")
+		fx.assume(st.guard, typeInvariant(ev))
+		fx.assumeRefsBelow(st, ev)
+		out.ts = append(out.ts, ev.ts...)
+	}
+	fr.regs[x] = out
 }
 
 func (fr *Frame) execAlloc(x *ssa.Alloc, st *State) {
@@ -1082,7 +1179,25 @@ func (fr *Frame) execUnOp(x *ssa.UnOp, st *State) {
 			fr.regs[x] = mkInt(sh, sub(numBig(ii.max()), v.t()))
 		}
 	case token.ARROW:
-		unsupp("channel receive in %s", fr.fn)
+		// a receive yields an arbitrary element (and an arbitrary ok): what
+		// other goroutines send is not modelled, nor is blocking
+		fx := fr.fx
+		fx.noteAssumption("channel receives yield arbitrary values; other goroutines do not change the verified state while this one waits")
+		ct, _ := x.X.Type().Underlying().(*types.Chan)
+		if ct == nil {
+			unsupp("receive from %s", x.X.Type())
+		}
+		ev := freshVal(fx.decls, shapeOf(ct.Elem()), "recv")
+		fx.assume(st.guard, typeInvariant(ev))
+		fx.assumeRefsBelow(st, ev)
+		if x.CommaOk {
+			okv := fx.decls.Fresh("recvok", sBool)
+			z := zeroVal(ev.sh)
+			res := iteVal(okv, ev, z)
+			fr.regs[x] = Val{sh: shapeOf(x.Type()), ts: append(append([]T{}, res.ts...), okv)}
+		} else {
+			fr.regs[x] = ev
+		}
 	default:
 		unsupp("unary %s", x.Op)
 	}
